@@ -123,8 +123,8 @@ CLAIMS = {
               'representation invariant size == sum of resident payload sizes on every method, item count == |map|, '
               '"over a limit => every resident entry is above the evictable boundary" as postcondition of insert/try_evict, '
               '"drained => nothing at or below the boundary" as postcondition of drain_evictable; the invariant is carried through RaftLogStateMachine::apply and every RaftLog write op '
-              '(an accepted append inserts a fresh key: invariant I7); generic in T: Types, for all cache limits and all boundaries.'),
-        note=TRUST + ' The cache RwLock is sequentialised (rule E6): each method is proved for an arbitrary boundary at entry, which is the only field the worker thread writes. stat() iterator glue is not under contract.',
+              '(an accepted append inserts a fresh key: invariant I7); accounting is stated as "slack" (counter minus resident sum): every cache method leaves the slack unchanged UNCONDITIONALLY, insert adds exactly the size of a replaced duplicate; generic in T: Types, for all cache limits and all boundaries.'),
+        note=TRUST + ' The cache RwLock is sequentialised (rule E6): each method is proved for an arbitrary boundary at entry, which is the only field the worker thread writes. RaftLog::stat() is under contract (reported count/size/limits/boundary are the cache fields; the per-closed-chunk list is an assumed iterator chain).',
         technique='Verus function contracts + data-structure invariant on extracted code',
         design='5 C15',
     ),
